@@ -180,10 +180,17 @@ def judge_resolve(v, ntrees, seed):
     shutil.rmtree(base, ignore_errors=True)
     qs, meta = [], []
     for t in range(ntrees):
-        root = "%s/t%d/cg" % (base, t)
+        # (one tree in seven has a cgroup-fs root whose own name contains glob metacharacters, next to directories that name matches)
+        rootname = rng.choice(["cg"] * 6 + ["cg*", "c?", "cg[2]"][t % 3:t % 3 + 1])
+        root = "%s/t%d/%s" % (base, t, rootname)
         dirs, files = {""}, set()
         os.makedirs(root)
         os.makedirs(root + "2/a")  # sibling sharing the fs root's name as prefix
+        for sib in ("cg", "cgz", "cg2", "cg*z"):
+            if sib == rootname:
+                continue
+            for nm in ("a", "ab", "b/a", "x1"):
+                os.makedirs("%s/t%d/%s/%s" % (base, t, sib, nm), exist_ok=True)
         def grow(rel, depth):
             for nm in rng.sample(NAMES, rng.randint(0, 4)):
                 c = (rel + "/" + nm) if rel else nm
@@ -214,7 +221,8 @@ def judge_resolve(v, ntrees, seed):
                 fs = root + "/"
             elif sp < 0.25:
                 fs = root + "//"
-            elif sp < 0.35 and pat:
+            elif sp < 0.35 and pat and rootname == "cg":
+                # (with the prefix moved into the pattern a root name like cg[2] would itself be a pattern component)
                 fs, qpat = "/", root.strip("/") + "/" + pat
             qs.append({"q": "resolve", "fs": fs, "pattern": qpat})
             meta.append((root, dirs, pat))
@@ -235,6 +243,8 @@ def judge_resolve(v, ntrees, seed):
         got = sorted(re.sub("/+", "/", x) for x in a["r"])  # spelling of the root (doubled slashes) is not judged here
         if q["fs"] != root:
             v.count("resolve_other_root_spelling")
+        if set(root.rsplit("/", 1)[1]) & set("*?["):
+            v.count("resolve_root_name_with_glob_characters")
         if got != sorted(want):
             v.bad("resolve-wildcard", "" if q["fs"] == root else "root-spelling", "fs %r pattern %r: resolved %s; matching directories %s (all dirs %s)" % (
                 q["fs"], q["pattern"], a["r"], sorted(x[len(root):] for x in want), sorted(dirs)))
